@@ -54,7 +54,10 @@ Inductive sres := SOk | STimeout | SFail | SNotRunning.
 (* what Run returns *)
 Inductive rres := ROk | RBootErr | RHttpErr | RStop (r : sres) | RTransErr.
 (* what the configuration callback returns at reload time *)
-Inductive cbres := CbErr | CbNil | CbCfg (c : config).
+(* CbErrOld: an error that wraps the exported sentinel ErrOldConfig.  reloadConfig wraps every callback error as
+   "%w: %w" (ErrConfigCallback, err) and Reload tests errors.Is(err, ErrOldConfig) BEFORE the default branch, so such
+   an error takes the "Config unchanged, skipping reload" path: the state returns to Running, nothing is touched. *)
+Inductive cbres := CbErr | CbErrOld | CbNil | CbCfg (c : config).
 
 Definition sres_code (r : sres) : N := match r with SOk => 0 | STimeout => 1 | SFail => 2 | SNotRunning => 3 end%N.
 Definition rres_code (r : rres) : N :=
@@ -65,6 +68,8 @@ Record srv := { s_cfg : config; s_pc : sv_pc; s_shut : bool }.
 
 Inductive run_pc :=
 | RNew | RCalled | RWantBoot | RInBoot | RBooted | RSelect | RWantStop | RInStop
+| RStopDone (r : sres)   (* shutdown(): stopServer returned r and r.mutex is released; Transition(Stopped) /
+                            setStateError still to come (a Reload caller can take the mutex in between) *)
 | RRet (r : rres) | RDone.
 
 (* what the holder of r.mutex is doing *)
@@ -101,7 +106,7 @@ Record state := {
 }.
 
 Inductive label :=
-| LRunCall | LRunStart | LRunLock | LRunFinishBoot | LRunWake | LRunServeErr | LRunLockStop
+| LRunCall | LRunStart | LRunLock | LRunFinishBoot | LRunWake | LRunServeErr | LRunLockStop | LRunFinishStop
 | LRunRet (r : rres)
 | LStopCall (j : nat) | LStopRet (j : nat) | LCancel
 | LReloadCall (i : nat) | LReloadBegin (i : nat) | LReloadRet (i : nat)
@@ -272,6 +277,18 @@ Definition init (c : config) : state := {|
   rpc := RNew; holder := None; kpc := KFree; rl_wait := []; rl_ret := []; stoppers := [];
   stop_req := false; cancelled := false; run_cancelled := false; crashed := false |}.
 
+(* What stopServer can report after calling http.Server.Shutdown under context.WithTimeout(Background, D), D = the
+   CURRENT configuration's DrainTimeout (on a Reload: the new one's).  stopServer tests the deadline AFTER Shutdown
+   returned and BEFORE looking at Shutdown's own result, so with D <= 0 (context expired at creation) the result is the
+   timeout whatever Shutdown did - an idle server included.  For D > 0 the untimed model leaves the result free; the
+   timed composition model/HttpCompose.v ties it to the drain model HttpDrain.v. *)
+Definition sres_allowed (d : Z) (r : sres) : bool :=
+  match r with
+  | SNotRunning => false
+  | STimeout => true
+  | SOk | SFail => (0 <? d)%Z
+  end.
+
 Section Model.
   (* [stop_locked]: false = Run.shutdown as it was (Transition(Stopping) BEFORE r.mutex.Lock: refused while a
      Reload is in the Reloading state, so that Run() then closes the listener under the state Running);
@@ -301,17 +318,25 @@ Section Model.
     | None => None
     end.
 
+  (* the end of Run's shutdown(), after r.mutex.Unlock(): setStateError and return the stopServer error, or
+     Transition(Stopped) (setStateError and the transition error when it is refused) *)
+  Definition finish_stop (s : state) (r : sres) : state :=
+    match r with
+    | SOk => if fsm_allowed (fsm_st s) FStopped
+             then with_rpc (with_fsm s FStopped) (RRet ROk)
+             else with_rpc (with_fsm s FError) (RRet RTransErr)
+    | _ => with_rpc (with_fsm s FError) (RRet (RStop r))
+    end.
+
   (* stopServer returned r (r.server has been reset to nil) *)
   Definition stop_done (s : state) (r : sres) : option state :=
     match holder s with
     | Some ByRun =>
       let s1 := with_crit s None KFree in
-      match r with
-      | SOk => if fsm_allowed (fsm_st s1) FStopped
-               then Some (with_rpc (with_fsm s1 FStopped) (RRet ROk))
-               else Some (with_rpc (with_fsm s1 FError) (RRet RTransErr))
-      | _ => Some (with_rpc (with_fsm s1 FError) (RRet (RStop r)))
-      end
+      (* the code as it is: the mutex is released first, the state transition is a separate step (a waiting Reload
+         may lock, be refused Reloading from Stopping, and return in between - first seen as a rejected trace of a
+         thorough run).  The legacy variant (stop_locked = false, code that no longer exists) keeps the fused step. *)
+      if stop_locked then Some (with_rpc s1 (RStopDone r)) else Some (finish_stop s1 r)
     | Some (ByReload i) =>
       match r with
       | SOk => Some (with_crit s (holder s) KWantBoot)
@@ -391,6 +416,11 @@ Section Model.
         Some (with_rpc (with_crit (if stop_locked then transition s FStopping else s) (Some ByRun) KStopPending) RInStop)
       | _, _ => None
       end
+    | LRunFinishStop =>                    (* after r.mutex.Unlock(): Transition(Stopped) / setStateError *)
+      match rpc s with
+      | RStopDone r => Some (finish_stop s r)
+      | _ => None
+      end
     | LRunRet r =>
       match rpc s with
       | RRet r' => if N.eqb (rres_code r) (rres_code r') then Some (with_rpc s RDone) else None
@@ -435,6 +465,7 @@ Section Model.
         | CbErr | CbNil =>
           let s1 := with_crit (with_fsm s FError) None KFree in
           Some (with_rl s1 (rl_wait s1) (i :: rl_ret s1))
+        | CbErrOld => Some (with_crit s (holder s) KUnchanged)     (* errors.Is(err, ErrOldConfig): "unchanged" *)
         | CbCfg c =>
           if go_config_equal c (cur s)
           then Some (with_crit s (holder s) KUnchanged)
@@ -466,24 +497,20 @@ Section Model.
         else None
       | _, _ => None
       end
-    | LShutdownRet sid r =>
+    | LShutdownRet sid r =>                (* the result of stopServer's once body, as stopServer classifies it *)
+      if sres_allowed (drain (cur s)) r then
       match kpc s with
       | KStopWait sid' =>
         if Nat.eqb sid sid'
-        then match r with
-             | SNotRunning => None
-             | _ => stop_done (with_server s None (once_done s)) r
-             end
+        then stop_done (with_server s None (once_done s)) r
         else None
       | KCleanup sid' =>
         if Nat.eqb sid sid'
-        then match r with
-             | SNotRunning => None
-             | _ => fail_boot (with_server s None (once_done s))
-             end
+        then fail_boot (with_server s None (once_done s))
         else None
       | _ => None
       end
+      else None
     (* ---------------- boot ---------------- *)
     | LBootReject =>                       (* NewConfig returned an error *)
       match kpc s with
@@ -625,7 +652,7 @@ Section Model.
 
   (* candidate internal labels of a state (a superset of the enabled ones) *)
   Definition taus (s : state) : list label :=
-    [LRunStart; LRunLock; LRunFinishBoot; LRunWake; LRunServeErr; LRunLockStop; LUnchanged; LFinish;
+    [LRunStart; LRunLock; LRunFinishBoot; LRunWake; LRunServeErr; LRunLockStop; LRunFinishStop; LUnchanged; LFinish;
      LStopSkip; LBootReject; LProbeOk; LProbeErr; LProbeCancelled; LProbeTimeout]
     ++ map LReloadBegin (rl_wait s)
     ++ flat_map (fun sid => [LBindOk sid; LPushErr sid; LServeSkip sid]) (seq 0 (length (servers s))).
@@ -670,7 +697,7 @@ End Model.
 
 Definition cbres_eqb (a b : cbres) : bool :=
   match a, b with
-  | CbErr, CbErr | CbNil, CbNil => true
+  | CbErr, CbErr | CbErrOld, CbErrOld | CbNil, CbNil => true
   | CbCfg x, CbCfg y => config_eqb x y
   | _, _ => false
   end.
@@ -719,7 +746,7 @@ Definition kcrit (k : crit) : list N :=
 Definition krpc (p : run_pc) : list N :=
   match p with
   | RNew => [0] | RCalled => [1] | RWantBoot => [2] | RInBoot => [3] | RBooted => [4] | RSelect => [5]
-  | RWantStop => [6] | RInStop => [7] | RRet r => [8; rres_code r] | RDone => [9]
+  | RWantStop => [6] | RInStop => [7] | RRet r => [8; rres_code r] | RDone => [9] | RStopDone r => [10; sres_code r]
   end%N.
 Definition kowner (o : owner) : list N := match o with Foreign => [0%N] | Own i => [1%N; N.of_nat i] end.
 
